@@ -68,7 +68,21 @@ NoRead(f) == f \in {"[u8;4]", "MaybeUnset<i32>"}
 
 \* (a refused value may leave partial bytes in a bare CellWriter's buffer: the roll-back happens one level up,
 \*  in SerializedValues.add_value — judged by SerializedValues.tla — so `ser_left` is recorded but not judged here)
+\* the same collection carriers holding NO element: the column must still be a collection of the carrier's kind (no shortcut
+\* around the check because there is nothing to encode); whether the element type of an empty collection is looked at is not
+\* judged (nothing of a wrong type is sent), nor is an empty sequence against a vector type (dimension count)
+EmptyFams == {"empty:HashSet<i32>", "empty:BTreeSet<String>", "empty:Vec<i32>", "empty:HashMap<String,i32>", "empty:BTreeMap<i32,String>"}
+BaseOf(f) == CASE f = "empty:HashSet<i32>" -> "HashSet<i32>" [] f = "empty:BTreeSet<String>" -> "BTreeSet<String>" [] f = "empty:Vec<i32>" -> "Vec<i32>"
+               [] f = "empty:HashMap<String,i32>" -> "HashMap<String,i32>" [] f = "empty:BTreeMap<i32,String>" -> "BTreeMap<i32,String>"
+KindFits(b, T) == IF b \in {"HashMap<String,i32>", "BTreeMap<i32,String>"} THEN T.k = "map" ELSE T.k \in {"set", "list"}
 MatrixOK(r) ==
+  IF r.carrier \in EmptyFams THEN
+    LET b == BaseOf(r.carrier) IN
+    /\ r.ser_panic = 0
+    /\ (r.t.k # "vector" /\ ~KindFits(b, r.t)) => r.ser_ok = 0
+    /\ (r.t.k # "vector" /\ Fits(b, r.t, TRUE)) => r.ser_ok = 1
+    /\ r.tc_ok = (IF Fits(b, r.t, FALSE) THEN 1 ELSE 0)
+  ELSE
   /\ r.ser_panic = 0
   /\ r.ser_ok = (IF Fits(r.carrier, r.t, TRUE) THEN 1 ELSE 0)
   /\ IF NoRead(r.carrier) THEN r.tc_ok = -1
